@@ -80,7 +80,8 @@ def make_overlay(repo, dest, contracts, child_modules):
     return inserted
 
 
-CHECK_RE = re.compile(r"^Check (\d+): (\S+)\n\s+- Status: (\w+)\n\s+- Description: \"(.*)\"\n(?:\s+- Location: (.*)\n)?", re.M)
+# the check name of code inside a trait impl contains spaces (`<T as Trait>::f.assertion.1`): match the whole line
+CHECK_RE = re.compile(r"^Check (\d+): (.+)\n\s+- Status: (\w+)\n\s+- Description: \"(.*)\"\n(?:\s+- Location: (.*)\n)?", re.M)
 
 
 def parse_output(out):
@@ -88,6 +89,8 @@ def parse_output(out):
     for m in CHECK_RE.finditer(out):
         checks.append({"n": int(m.group(1)), "name": m.group(2), "status": m.group(3), "description": m.group(4), "location": (m.group(5) or "").strip()})
     res = {"checks": checks}
+    # safety net: every check block Kani printed must have been parsed (a failing check that is not parsed would be lost)
+    res["unparsed_checks"] = len(re.findall(r"^Check \d+: ", out, re.M)) - len(checks)
     m = re.search(r"VERIFICATION:- (\w+)", out)
     res["verdict"] = m.group(1) if m else None
     m = re.search(r"Verification Time: ([0-9.]+)s", out)
@@ -159,6 +162,7 @@ def run_harness(ov, name, solver=None, timeout=600, unwind=None, extra=None, mem
         res["status"] = "discharged" if parsed["verdict"] == "SUCCESSFUL" else "refuted"
         if res["status"] == "discharged": cl["refuted"] = []; res["refuted"] = []; res["discharged"] = res["counted"]
     elif cl["refuted"]: res["status"] = "refuted"
+    elif parsed.get("unparsed_checks"): res["status"] = "infra"; res["error_tail"] = "%d check block(s) of the Kani output were not parsed" % parsed["unparsed_checks"]
     elif cl["undetermined"] or cl["covers_unsat"]: res["status"] = "infra"
     elif cl["counted"] == 0: res["status"] = "infra"
     else: res["status"] = "discharged"
